@@ -336,10 +336,31 @@ def classify(r):
     return "inconclusive", "no verdict in kani output (build failure, timeout or crash)"
 
 
+def crate_features(crate_dir):
+    """Feature names declared by a harness crate (one per property module)."""
+    p = os.path.join(HARNESS, crate_dir, "Cargo.toml")
+    txt = open(p).read()
+    m = re.search(r"^\[features\]\n(.*?)(?:\n\[|\Z)", txt, re.S | re.M)
+    if not m:
+        return set()
+    return set(re.findall(r"^(\w+)\s*=", m.group(1), re.M))
+
+
+def feature_args(harnesses):
+    feats = set()
+    for h in harnesses:
+        avail = crate_features(h["crate"])
+        top = h["module"].split("::")[0]
+        if top in avail:
+            feats.add(top)
+    return ["--features", ",".join(sorted(feats))] if feats else []
+
+
 def run_kani(pkg, harnesses, jobs, timeout_s, logf, extra=()):
     names = []
     for h in harnesses:
         names += ["--harness", h["full"]]
+    extra = tuple(extra) + tuple(feature_args(harnesses))
     cmd = [
         "cargo", "kani", "-p", pkg, "--exact", *names,
         "-j", str(jobs), "--output-format", "terse",
@@ -373,6 +394,7 @@ def get_playback_test(h, logf, timeout_s):
         "--output-format", "terse", "-Z", "unstable-options", "--harness-timeout", f"{int(timeout_s)}s",
         "-Z", "stubbing", "-Z", "async-lib",
         "-Z", "concrete-playback", "--concrete-playback=print",
+        *feature_args([h]),
     ]
     with open(logf, "w") as lf:
         subprocess.run(cmd, cwd=WS, env=cargo_env(), stdout=lf, stderr=subprocess.STDOUT, preexec_fn=limit_mem_playback)
@@ -414,7 +436,7 @@ def run_replay(rep, tag="replay"):
         for prof, extra_env in (("dev", {}), ("release", rel_env)):
             logf = os.path.join(WORK, f"{tag}_{rep['harness']}_{prof}.log")
             cmd = ["cargo", "kani", "playback", "-Z", "concrete-playback", "-p", pkg,
-                   "--", rep["test_name"]]
+                   *rep.get("feature_args", []), "--", rep["test_name"]]
             env = cargo_env()
             env.update(extra_env)
             with open(logf, "w") as lf:
@@ -664,6 +686,7 @@ def make_replay(prop, h, fails, timeout_s):
         module_file=os.path.join(nd, "src", os.path.relpath(h["file"], os.path.join(h["crate"], "src"))),
         failed_checks=fails,
         test_name="kani_concrete_playback_" + h["name"],
+        feature_args=feature_args([h]),
         test_code=code,
         how_to_run=f"./check {prop} --replay replays/{prop}/{h['name']}.json",
     )
@@ -737,6 +760,8 @@ def setup():
         if pkg.endswith("-native"):
             continue
         cmd = ["cargo", "kani", "-p", pkg, "--only-codegen", "-Z", "unstable-options", "-Z", "stubbing", "-Z", "async-lib"]
+        if crate_features(d):
+            cmd += ["--all-features"]
         log("$ " + " ".join(cmd))
         p = subprocess.run(cmd, cwd=WS, env=cargo_env(), stdout=subprocess.PIPE, stderr=subprocess.STDOUT, text=True)
         tail = "\n".join(l for l in p.stdout.split("\n") if l.startswith("error") or "Finished" in l)
